@@ -77,6 +77,17 @@ var optionalLinks = []node{
 	{Path: "outside/back", Kind: "sym", Target: "../allowed"},
 }
 
+// link chains of two and three hops whose first hops point inside the allowed area
+var linkChains = []node{
+	{Path: "allowed/hop2", Kind: "sym", Target: "../outside/secret.txt"},
+	{Path: "allowed/hop1", Kind: "sym", Target: "hop2"},
+	{Path: "allowed/hop0", Kind: "sym", Target: "@/allowed/hop1"},
+	{Path: "allowed/sub/dhop2", Kind: "sym", Target: "@/outside/dir2"},
+	{Path: "allowed/dhop1", Kind: "sym", Target: "sub/dhop2"},
+	{Path: "allowed/inhop2", Kind: "sym", Target: "pub.txt"},
+	{Path: "allowed/inhop1", Kind: "sym", Target: "inhop2"},
+}
+
 func build(root string, nodes []node) {
 	for _, n := range nodes {
 		p := filepath.Join(root, n.Path)
@@ -239,7 +250,7 @@ var interesting = []string{"allowed", "allowed/pub.txt", "allowed/sub", "allowed
 	"allowed/link/dir2/s2.txt", "allowed/abs", "allowed/abs/secret.txt", "allowed/abs/dir2", "allowed/flink", "allowed/inlink", "allowed/inlink/deep.txt",
 	"allowed/dangling", "allowed/sub/up", "allowed/sub/up/pub.txt", "allowed/sub/up/link/secret.txt", "allowed/sub/out2", "allowed/sub/out2/s2.txt",
 	"allowed/loop", "allowed/pubref", "allowed/link/back", "allowed/link/back/pub.txt", "allowed/new.txt", "allowed/newdir/new.txt", "allowed/link/new.txt",
-	"allowed/link/newdir/new.txt", "allowed/sub/new.txt", "allowed/pub.txt/x", "allowed/link/..", "allowed/link/../outside/secret.txt", "allowed/sub/../pub.txt",
+	"allowed/link/newdir/new.txt", "allowed/sub/new.txt", "allowed/hop1", "allowed/hop0", "allowed/dhop1", "allowed/dhop1/s2.txt", "allowed/inhop1", "allowed/hop2", "allowed/pub.txt/x", "allowed/link/..", "allowed/link/../outside/secret.txt", "allowed/sub/../pub.txt",
 	"allowed/link/../allowed2/x.txt", "allowed/sub/up/../pub.txt", "outside/secret.txt", "outside/back/pub.txt", "allowed2/x.txt", "allowedevil/e.txt", "allowed/a..b"}
 
 func genPath(r *vh.Rand) string {
@@ -314,6 +325,9 @@ func insideScratch(p string) bool {
 
 func genCase(r *vh.Rand) kase {
 	k := kase{Tree: baseTree(), Allowed: genAllowed(r)}
+	if r.Chance(1, 2) { // multi-hop chains: every hop but the last stays inside the allowed area
+		k.Tree = append(k.Tree, linkChains...)
+	}
 	for _, l := range optionalLinks {
 		if r.Chance(3, 5) {
 			k.Tree = append(k.Tree, l)
@@ -348,6 +362,10 @@ func witnesses() []kase {
 		mk("download with a link as the final component", request{Op: "download", Path: "@/allowed/flink"}),
 		mk("download of a link to a directory with /. appended", request{Op: "download", Path: "@/allowed/link/."}),
 		mk("download of a link to a directory with / appended", request{Op: "download", Path: "@/allowed/abs/"}),
+		{Note: "download of a two-hop link chain inside -> inside -> outside", Tree: append(append(baseTree(), optionalLinks...), linkChains...), Allowed: a, Req: request{Op: "download", Path: "@/allowed/hop1"}},
+		{Note: "download of a three-hop link chain (absolute first hop)", Tree: append(append(baseTree(), optionalLinks...), linkChains...), Allowed: a, Req: request{Op: "download", Path: "@/allowed/hop0"}},
+		{Note: "download of a two-hop chain to an outside directory", Tree: append(append(baseTree(), optionalLinks...), linkChains...), Allowed: a, Req: request{Op: "download", Path: "@/allowed/dhop1"}},
+		{Note: "download of a two-hop chain that stays inside", Tree: append(append(baseTree(), optionalLinks...), linkChains...), Allowed: a, Req: request{Op: "download", Path: "@/allowed/inhop1"}},
 		mk("upload through a link in a parent directory", request{Op: "upload", Path: "@/allowed/link/evil.txt", Data: "UP"}),
 		mk("upload onto a link as the final component", request{Op: "upload", Path: "@/allowed/flink", Data: "UP"}),
 		mk("upload onto a dangling link", request{Op: "upload", Path: "@/allowed/dangling", Data: "UP"}),
@@ -481,7 +499,7 @@ func main() {
 		}
 		cases = []kase{k}
 	} else {
-		cases = witnesses()
+		cases = append(witnesses(), boundaryCases(c.Thorough())...)
 		rnd := c.Rand.Fork()
 		n := c.N(380, 15000)
 		for i := 0; i < n; i++ {
@@ -556,12 +574,10 @@ func main() {
 		// reading requests must leave the tree as it was (checked here); the tree is
 		// then not sent to the model, which keeps the evaluation cheap
 		final := "(Some " + coqSnap(after) + ")"
-		if k.Req.Op == "download" || k.Req.Op == "list" || k.Req.Op == "stat" {
-			if !sameTree(before, after) {
-				c.Fail("ft-read-request-changed-tree", k.Req.Op+" changed the file system", k)
-			} else {
-				final = "None"
-			}
+		if sameTree(before, after) {
+			final = "None" // the model must report an unchanged state as well
+		} else if k.Req.Op == "download" || k.Req.Op == "list" || k.Req.Op == "stat" {
+			c.Fail("ft-read-request-changed-tree", k.Req.Op+" changed the file system", k)
 		}
 		coq = append(coq, fmt.Sprintf("FCase %s %s %s %d%%N %s %s %s %s", coqTree(k.Tree), coqStrs(stripAt(k.Allowed)), coqReq(k.Req), res.Code,
 			in.S(res.Payload), in.S(chmodded), vh.CoqBool(escaped), final))
@@ -569,8 +585,12 @@ func main() {
 
 	var sb strings.Builder
 	sb.WriteString("From Coq Require Import List NArith String.\nFrom MM Require Import Model.Fs Model.PathPolicy.\nImport ListNotations.\nLocal Open Scope string_scope.\n")
+	baseDef := coqTreeList(baseTree())
+	sweepDef := coqTreeList(sweepTree()[len(baseTree()):])
 	sb.WriteString(in.Defs())
-	sb.WriteString("Definition base_tree : list inode_spec := " + coqTreeList(baseTree()) + ".\n")
+	sb.WriteString("Definition base_tree : list inode_spec := " + baseDef + ".\n")
+	sb.WriteString("Definition sweep_tree : list inode_spec := base_tree ++ " + sweepDef + ".\n")
+	sb.WriteString("Definition sweep_fs : fsys := Eval vm_compute in build_fs sweep_tree.\n")
 	const chunk = 100
 	var names []string
 	for i := 0; i < len(coq); i += chunk {
@@ -605,8 +625,23 @@ func coqStrs(xs []string) string {
 
 func coqText(s string) string { return in.S(s) }
 
+func sameNodes(a, b []node) bool {
+	if len(a) != len(b) {
+		return false
+	}
+	for i := range a {
+		if a[i] != b[i] {
+			return false
+		}
+	}
+	return true
+}
+
 func coqTree(nodes []node) string {
 	// the fixed part is a shared definition: elaborating string literals dominates the cost of cases.v
+	if sameNodes(nodes, sweepTree()) {
+		return "sweep_fs" // built once
+	}
 	nb := len(baseTree())
 	if len(nodes) >= nb {
 		same := true
@@ -616,10 +651,10 @@ func coqTree(nodes []node) string {
 			}
 		}
 		if same {
-			return "(base_tree ++ " + coqTreeList(nodes[nb:]) + ")"
+			return "(build_fs (base_tree ++ " + coqTreeList(nodes[nb:]) + "))"
 		}
 	}
-	return coqTreeList(nodes)
+	return "(build_fs " + coqTreeList(nodes) + ")"
 }
 
 func coqTreeList(nodes []node) string {
@@ -704,7 +739,8 @@ func diffOutside(c *vh.Ctx, k kase, allowed []string, root string, before, after
 	reqRel, _ := filepath.Rel(root, filepath.Clean(expand(k.Req.Path, root)))
 	for p, a := range am {
 		if _, ok := bm[p]; !ok && notAllowed(p) {
-			if k.Req.Op == "upload" && pos == "lexical" && a.Kind == "dir" && strings.HasPrefix(reqRel+"/", p+"/") {
+			if k.Req.Op == "upload" && pos == "lexical" && a.Kind == "dir" && strings.HasPrefix(reqRel+"/", p+"/") && aboveAllowedRoot(k.Allowed, p) &&
+				allowedLexically(allowed, filepath.Join(root, reqRel)) {
 				// MkdirAll created a missing directory above the allowed root itself
 				c.Fail("ft-upload-creates-ancestors-of-allowed-root", fmt.Sprintf("upload %s created the missing directory %s, which lies above every allowed path", k.Req.Path, p), k)
 				continue
@@ -739,6 +775,27 @@ func sameTree(a, b []obj) bool {
 		}
 	}
 	return true
+}
+
+// aboveAllowedRoot: the (scratch-relative) directory p is a proper ancestor of
+// the literal base directory of some allowed pattern
+func aboveAllowedRoot(allowed []string, p string) bool {
+	for _, pat := range allowed {
+		if !strings.HasPrefix(pat, "@/") {
+			continue
+		}
+		var base []string
+		for _, c := range strings.Split(filepath.Clean(pat[2:]), "/") {
+			if strings.ContainsAny(c, "*?[") {
+				break
+			}
+			base = append(base, c)
+		}
+		if strings.HasPrefix(strings.Join(base, "/")+"/", p+"/") && strings.Join(base, "/") != p {
+			return true
+		}
+	}
+	return false
 }
 
 var in = fsutil.NewInterner()
